@@ -223,7 +223,7 @@ class Devices:
 
 
 class Interp:
-    def __init__(self, prog, script, plan=(), budget=200000):
+    def __init__(self, prog, script, plan=(), budget=40000):
         self.prog = prog
         self.env = TypeEnv(prog)
         self.dev = Devices(script, plan)
@@ -404,6 +404,10 @@ class Interp:
             return '%', -1 if r else 0
         if ta == '$' or tb == '$':
             if op == '+' and ta == tb == '$':
+                if len(va) + len(vb) > 100000:
+                    # (qbee has no 32767-character cap; the machine side stops
+                    # such runs as inconclusive too)
+                    raise Inconclusive('string growth')
                 return '$', va + vb
             raise Inconclusive('string operand')
         if op in LOGIC or op in ('\\', 'mod'):
@@ -684,6 +688,11 @@ class Interp:
         if self.steps > self.budget:
             raise Inconclusive('budget')
         while True:
+            # (every pass counts: a handler that RESUMEs a statement it did not
+            # repair retries it for ever)
+            self.steps += 1
+            if self.steps > self.budget:
+                raise Inconclusive('budget')
             prev = self.cur_stmt
             self.cur_stmt = s
             if self.trace and 'id' in s:
@@ -726,6 +735,9 @@ class Interp:
         the caller expresses as the value `on_next`."""
         sid = f"{s.get('id')}.{part}" if part else s.get('id')
         while True:
+            self.steps += 1
+            if self.steps > self.budget:
+                raise Inconclusive('budget')
             saved = self.part
             if part:
                 self.part = sid
